@@ -868,6 +868,14 @@ fn generate(rng: &mut Rng, tier: &str, w: &mut CaseWriter) {
 
 fn gen_all(rng: &mut Rng, thorough: bool, div: u64, w: &mut CaseWriter) {
     let q = |x: u64| (x / div).max(1);
+    if div == 1 {
+        // input-driven recursion depth (each case runs in its own child process)
+        for place in ["ids", "fmtkey"] {
+            for count in [1u64, 14, 300, 250_000] {
+                w.push("nest", vec!["bcf".into(), place.into(), count.to_string()]);
+            }
+        }
+    }
     // modelled kinds -------------------------------------------------------------------------
     {
         let mut push = |lens: &[u64], k: u64, upos: u64, how: u64| {
@@ -1279,6 +1287,72 @@ fn run_rfreq(table: Vec<u8>) -> Obs {
     }
 }
 
+// ---------------------------------------------------------------------------------------------
+// nest: recursion driven by the input.  BCF typed descriptors whose length nibble is 15 read the
+// real length as a typed integer, through read_value -> read_type -> read_value ...; a run of
+// `count` descriptor bytes 0xf1 placed where a typed value is expected (block length adjusted so
+// that the record still frames) makes the decoder recurse once per byte.  A stack overflow cannot
+// be caught in-process, so the case runs in a child process (`c15 one nest ...`, C15_NEST_CHILD=1).
+
+fn nest_payload(fmt: &str, place: &str, count: usize) -> Option<Vec<u8>> {
+    if fmt != "bcf" {
+        return None;
+    }
+    let p = base("bcf");
+    let &(start, _len) = bcf_records(&p).first()?;
+    let ls = le32(&p, start)?;
+    let mut v = p.to_vec();
+    let run = std::iter::repeat(0xf1u8).take(count);
+    match place {
+        // the ID column: the first typed value of the site block, right after the 24 fixed bytes
+        "ids" => {
+            v.splice(start + 8 + 24..start + 8 + 24, run);
+            add_le(&mut v, start, 4, count as i64);
+        }
+        // the key of the first FORMAT series: the first typed value of the individual block
+        "fmtkey" => {
+            v.splice(start + 8 + ls..start + 8 + ls, run);
+            add_le(&mut v, start + 4, 4, count as i64);
+        }
+        _ => return None,
+    }
+    Some(v)
+}
+
+fn run_nest(fmt: String, place: String, count: usize) -> Obs {
+    if std::env::var("C15_NEST_CHILD").is_ok() {
+        return match nest_payload(&fmt, &place, count) {
+            Some(m) => run_payload(fmt, m),
+            None => Obs { obs: "-".into(), verdict: "skip".into(), nontrivial: false },
+        };
+    }
+    let Ok(exe) = std::env::current_exe() else { return Obs::fail("-", "harness-no-exe", "current_exe") };
+    let out = std::process::Command::new(exe)
+        .args(["one", "nest", &fmt, &place, &count.to_string()])
+        .env("C15_NEST_CHILD", "1")
+        .env("C15_INNER", "1")
+        .output();
+    match out {
+        Ok(o) if o.status.success() => {
+            let text = String::from_utf8_lossy(&o.stdout);
+            let line = text.lines().last().unwrap_or("");
+            let verdict = line.split('\t').nth(1).unwrap_or("fail harness-nest-child-output").to_string();
+            let nontrivial = verdict != "skip";
+            Obs { obs: "-".into(), verdict, nontrivial }
+        }
+        Ok(o) => {
+            let err = String::from_utf8_lossy(&o.stderr);
+            let what = if err.contains("overflowed its stack") { "stack" } else { "abort" };
+            Obs::fail(
+                "-",
+                &format!("{what}-{fmt}-typed-length-nesting"),
+                format!("the process died ({:?}) on {count} nested length-overflow descriptors (0xf1) at {place} | nest {fmt} {place} {count}", o.status),
+            )
+        }
+        Err(e) => Obs::fail("-", "harness-nest-spawn", e.to_string()),
+    }
+}
+
 fn run(c: &Case) -> Obs {
     if SPINNING.load(Ordering::SeqCst) >= 3 && std::env::var("C15_INNER").is_ok() {
         // too many runaway decoder threads in this process: let the supervisor run the rest of the
@@ -1321,6 +1395,7 @@ fn run(c: &Case) -> Obs {
         }
         "csiq" => run_csiq(c.u(0), c.u(1), c.u(2), c.u(3), c.u(4)),
         "rfreq" => run_rfreq(c.b(0)),
+        "nest" => run_nest(c.args[0].clone(), c.args[1].clone(), c.u(2) as usize),
         k => Obs::fail("-", "harness-unknown-kind", k),
     }
 }
